@@ -213,8 +213,14 @@ func runRadius(o *Out, r *rand.Rand, thorough bool, _ []string) {
 		}
 		member := membership()
 		o.Case(fmt.Sprintf("rpeer net=%s member=%s", net_, member), "ok")
+		// every twelfth sequence of a member begins with the case that must not depend on luck: a well-formed ping of a supported
+		// radius type that announces a newer record than the one held
+		forceNewer := s%12 == 5 && member != "none"
 		for e := 0; e < 1+r.Intn(6); e++ {
 			typ := []uint16{pingext.ClientInfo, pingext.BasicRadius, pingext.HistoryRadius, 7, pingext.Error}[r.Intn(5)]
+			if forceNewer && e == 0 {
+				typ = pingext.ClientInfo
+			}
 			rad := radiusBytes(r)
 			var payload []byte
 			var decoded interface{}
@@ -234,15 +240,15 @@ func runRadius(o *Out, r *rand.Rand, thorough bool, _ []string) {
 			default:
 				payload = rad
 			}
-			malformed := r.Intn(8) == 0 && len(payload) > 3
+			malformed := r.Intn(8) == 0 && len(payload) > 3 && !(forceNewer && e == 0)
 			if malformed {
 				payload = payload[:len(payload)-3]
 			}
 			kind := "ping"
-			if r.Intn(2) == 0 {
+			if r.Intn(2) == 0 && !(forceNewer && e == 0) {
 				kind = "pong"
 			}
-			if r.Intn(10) == 0 {
+			if r.Intn(10) == 0 && !(forceNewer && e == 0) {
 				// the record is handed to AddEnr again (an operator re-submitting known records): a node that is in the table
 				// already keeps the radius it reported; only a node that enters the table by this call starts with the maximum
 				before := membership()
@@ -255,7 +261,7 @@ func runRadius(o *Out, r *rand.Rand, thorough bool, _ []string) {
 				o.Case(fmt.Sprintf("raddenr before=%s member=%s", before, membership()), "cache="+cs)
 				continue
 			}
-			if r.Intn(7) == 0 || (nd == roomy && e == 0 && r.Intn(2) == 0) {
+			if !(forceNewer && e == 0) && (r.Intn(7) == 0 || (nd == roomy && e == 0 && r.Intn(2) == 0)) {
 				// the peer answers one of our FINDCONTENT requests with a list of closer nodes: that says nothing about ITS radius
 				// (it may enter the table by this; what the cache holds for it stays what it last reported, or nothing)
 				before := membership()
@@ -279,10 +285,10 @@ func runRadius(o *Out, r *rand.Rand, thorough bool, _ []string) {
 			res := "ok"
 			if kind == "ping" {
 				ping := &portalwire.Ping{EnrSeq: 1, PayloadType: typ, Payload: payload}
-				if r.Intn(8) == 0 {
-					// the peer announces a newer record than the one we hold and then does not serve it (the record request
-					// times out): the radius reported in this very ping counts all the same
-					ping.EnrSeq = 2 + uint64(r.Intn(5))
+				if r.Intn(12) == 0 || (forceNewer && e == 0) {
+					// the peer announces a newer record than the one we hold (sequence number 5) and then does not serve it (the
+					// record request times out): the radius reported in this very ping counts all the same
+					ping.EnrSeq = 6 + uint64(r.Intn(5))
 				}
 				// the reply is requested under an id that is in no table: the handler's asynchronous processPing then has no
 				// effect, and the ordered processing below is the only writer of the cache
